@@ -399,8 +399,12 @@ func varies(u *refwire.Universe, t reflect.Type, seen map[reflect.Type]bool) boo
 	switch t.Kind() {
 	case reflect.Bool, reflect.Int, reflect.Int8, reflect.Int16, reflect.Int32, reflect.Int64, reflect.Uint, reflect.Uint8, reflect.Uint16, reflect.Uint32, reflect.Uint64, reflect.Float32, reflect.Float64, reflect.String:
 		return true
-	case reflect.Slice, reflect.Map:
+	case reflect.Slice:
 		return true // random length
+	case reflect.Map:
+		// dozens of insertions: the number of entries only varies with the keys (a key type with one
+		// value gives the same single entry every time)
+		return varies(u, t.Key(), seen) || varies(u, t.Elem(), seen)
 	case reflect.Array:
 		return t.Len() > 0 && varies(u, t.Elem(), seen)
 	case reflect.Pointer:
